@@ -16,7 +16,9 @@ branches are written:
 
 plus role helpers (nearest roots of a site, local access paths).
 """
-from ..core import (AnalysisBroken, PRIMITIVES, canon, strip, walk, lvalue_root, norm_cond, forward)
+import copy
+
+from ..core import (AnalysisBroken, PRIMITIVES, canon, strip, strip_load, walk, lvalue_root, norm_cond, forward, _open_coded_list_empty)
 from ..analyses import callback_kind, liveness
 from .. import roles
 
@@ -27,27 +29,116 @@ NZ = 'nz'
 # roles
 # --------------------------------------------------------------------------
 
-def nearest_roots(prog, pred):
-    """Roots (exported functions, installed handlers, method slots) closest to the functions whose own
-    body contains an event satisfying pred: static helpers are climbed through, roots are not."""
-    owners = roles.functions_with(prog, pred)
-    rts = {r.q for r in roles.roots(prog)}
-    out, seen, work = {}, set(), list(owners)
+def _mention_index(prog):
+    """per function: the (record, field) pairs its own body mentions, and the names it calls directly; cached on the program"""
+    idx = prog.__dict__.get('_h02_mentions')
+    if idx is None:
+        idx = {}
+        byname = {}
+        for f in prog.all_funcs():
+            byname.setdefault(f.name, []).append(f)
+            m, calls = set(), set()
+            for blk in f.blocks.values():
+                for e in blk.events:
+                    if e['ev'] == 'call' and e.get('callee'):
+                        calls.add(e['callee'])
+                    for x in walk(e):
+                        if x.get('k') == 'member':
+                            m.add((x.get('record'), x['field']))
+                        elif x.get('k') == 'call' and x.get('callee'):
+                            calls.add(x['callee'])
+                if blk.term and isinstance(blk.term.get('cond'), dict):
+                    for x in walk(blk.term['cond']):
+                        if x.get('k') == 'member':
+                            m.add((x.get('record'), x['field']))
+            idx[f.q] = (m, calls)
+        idx = prog.__dict__['_h02_mentions'] = (idx, byname)
+    return idx
+
+
+def closure_mentions(prog, f, fields):
+    """does f or a function it can reach through direct calls mention one of the (record, field) pairs?"""
+    idx, byname = _mention_index(prog)
+    seen, work = set(), [f]
     while work:
-        f = work.pop()
-        if f.q in seen:
+        g = work.pop()
+        if g.q in seen:
             continue
-        seen.add(f.q)
-        if f.q in rts:
-            out[f.q] = f
+        seen.add(g.q)
+        m, calls = idx.get(g.q, (set(), set()))
+        if m & fields:
+            return True
+        for n in calls:
+            work += byname.get(n, [])
+    return False
+
+
+def nearest_roots(prog, pred, mentions=None):
+    """Roots (exported functions, installed handlers, method slots) closest to the sites satisfying pred.  The sites are
+    looked for in every root *with its helpers inlined* (a site may only become recognisable there: a store through a
+    pointer parameter, a method call through an accessor or a cached function pointer); a site that was reached through
+    another root belongs to that root.  `mentions`: (record, field) pairs one of which every site involves -- roots whose
+    call closure never names one of them are not inlined at all."""
+    rts = sorted(roles.roots(prog), key=lambda r: r.q)
+    rq = {r.q for r in rts}
+    out = []
+    for r in rts:
+        if mentions is not None and not closure_mentions(prog, r, set(mentions)):
             continue
-        for (c, e) in prog.callers_of(f.name):
-            u = prog.unit_of(c)
-            t = prog.resolve(u, e['callee']) if u else prog.funcs.get(e['callee'])
-            if t is not None and t.q != f.q:
-                continue
-            work.append(c)
-    return [out[q] for q in sorted(out)]
+        try:
+            g = inlined(prog, r)
+        except AnalysisBroken:
+            continue
+        for e in g.events():
+            if pred(e) and not any(c[2] in rq and c[2] != r.q for c in e.get('chain', ())):
+                out.append(r)
+                break
+    return out
+
+
+def _fold(x, al=None):
+    if isinstance(x, list):
+        return [_fold(i, al) for i in x]
+    if isinstance(x, dict):
+        if al and x.get('k') == 'load':
+            v = x.get('e')
+            if isinstance(v, dict) and v.get('k') == 'var' and v.get('name') in al:
+                return _fold(copy.deepcopy(al[v['name']]), al)
+        new = {k: (_fold(v, al) if isinstance(v, (dict, list)) and k != 'sizeof' else v) for k, v in x.items()}
+        k = new.get('k')
+        if k == 'deref':
+            inner = strip(new.get('e'))
+            if isinstance(inner, dict) and inner.get('k') == 'addr' and isinstance(inner.get('e'), dict):
+                return inner['e']
+        elif k == 'member' and new.get('arrow'):
+            inner = strip(new.get('base'))
+            if isinstance(inner, dict) and inner.get('k') == 'addr' and isinstance(inner.get('e'), dict):
+                new['arrow'] = False
+                new['base'] = inner['e']
+        elif k == 'bin' and new.get('op') in ('==', '!=') and al:
+            r_ = _open_coded_list_empty(new)
+            if r_ is not None:
+                return r_
+        return new
+    return x
+
+
+def fold_deref_addr(g):
+    """Normalisation of an inlined function, in place: a local that caches the address of an object (`q = &st->u.epoll.notify`,
+    `p = &pfd`; single assignment, address computed without reading memory) is replaced by that address where it is read;
+    `*&x` -> x and `(&x)->f` -> x.f (what an access through an out-parameter, an accessor returning an address or such a
+    cached address looks like after substitution); `p->next == p` on the result is iv_list_empty(p) as in the core."""
+    al = addr_aliases(g)
+    for blk in g.blocks.values():
+        for e in blk.events:
+            for k in ('lhs', 'rhs', 'args', 'fnexpr', 'e', 'value', 'init'):
+                if isinstance(e.get(k), (dict, list)):
+                    if k == 'lhs' and isinstance(e[k], dict) and e[k].get('k') == 'var':
+                        continue
+                    e[k] = _fold(e[k], al)
+        if blk.term and isinstance(blk.term.get('cond'), dict):
+            blk.term['cond'] = _fold(blk.term['cond'], al)
+    return g
 
 
 def inlined(prog, f, **kw):
@@ -57,7 +148,7 @@ def inlined(prog, f, **kw):
     key = (f.q, tuple(sorted(kw.items())))
     if key not in cache:
         from ..core import Inliner
-        cache[key] = Inliner(prog, **kw).inline(f)
+        cache[key] = fold_deref_addr(Inliner(prog, **kw).inline(f))
     return cache[key]
 
 
@@ -77,6 +168,22 @@ def local_path(e):
     return None
 
 
+def peel(x):
+    """strip loads/casts and collapse `*&x` (what an inlined out-parameter access looks like) to x"""
+    while isinstance(x, dict):
+        k = x.get('k')
+        if k in ('cast', 'load', 'stmtexpr') and 'e' in x:
+            x = x['e']
+            continue
+        if k == 'deref':
+            inner = strip(x.get('e'))
+            if isinstance(inner, dict) and inner.get('k') == 'addr':
+                x = inner['e']
+                continue
+        break
+    return x
+
+
 def local_vars_in(x):
     return {y['name'] for y in walk(x) if y.get('k') == 'var' and y.get('vk') in ('local', 'param')}
 
@@ -91,6 +198,190 @@ def obj_pointer_names(lhs):
     if m.get('arrow'):
         return set(names_of(m['base'])) | {canon(m['base'])}
     return {'&' + canon(m['base'])}
+
+
+def pure_address(x):
+    """the address of lvalue x is computed without reading memory: member / constant-subscript steps over a local object
+    or over the object a (stable) pointer variable points to -- it denotes the same object wherever it is evaluated"""
+    x = strip(x)
+    while isinstance(x, dict):
+        k = x.get('k')
+        if k == 'var':
+            return True
+        if k == 'member':
+            if x.get('arrow'):
+                b = strip(x['base'])
+                return isinstance(b, dict) and b.get('k') == 'var'
+            x = strip(x['base'])
+        elif k == 'index' and 'bound' in x and isinstance(strip(x.get('idx')), dict) and strip(x['idx']).get('k') == 'int':
+            x = strip_load(x['base'])
+        else:
+            return False
+    return False
+
+
+def addr_aliases(g):
+    """{local: address expression} for locals that cache the address of an object (`head = &st->u.epoll.notify`):
+    assigned at one source location, from an `&lvalue` built only from variables that are themselves never
+    re-assigned, and whose own address is not taken.  A use of such a local *is* that address."""
+    stores, taken = {}, set()
+    for e in g.events():
+        if e['ev'] == 'store':
+            l = strip(e['lhs'])
+            if isinstance(l, dict) and l.get('k') == 'var':
+                stores.setdefault(l['name'], []).append(e)
+        for x in walk(e):
+            if x.get('k') == 'addr':
+                inner = strip(x.get('e'))
+                if isinstance(inner, dict) and inner.get('k') == 'var':
+                    taken.add(inner['name'])
+    single = {n for n, es in stores.items() if n not in taken and all(e['op'] == '=' and 'rhs' in e for e in es)
+              and len({e['loc'] for e in es}) == 1 and len({canon(e['rhs']) for e in es}) == 1}
+    out = {}
+    for n in sorted(single):
+        r = strip(stores[n][0]['rhs'])
+        if isinstance(r, dict) and r.get('k') == 'addr' and pure_address(r['e']) \
+                and all(v in single or v not in stores for v in local_vars_in(r)):
+            out[n] = r
+    changed = True
+    while changed:                  # a copy of a cached address is a cached address
+        changed = False
+        for n in sorted(single - set(out)):
+            r = strip(stores[n][0]['rhs'])
+            if isinstance(r, dict) and r.get('k') == 'var' and r['name'] in out:
+                out[n] = out[r['name']]
+                changed = True
+    return out
+
+
+def resolve_alias(x, aliases):
+    """the address expression a pointer expression denotes: itself, or what the caching local was assigned"""
+    x = strip(x)
+    if aliases and isinstance(x, dict) and x.get('k') == 'var' and x['name'] in aliases:
+        return aliases[x['name']]
+    return x
+
+
+def _is_const_type(t):
+    return isinstance(t, str) and t.replace('static ', '').strip().startswith('const ')
+
+
+def _readonly_object(prog, name):
+    """no function stores into the global / static-local `name`, takes its address or lets it decay to a pointer:
+    every occurrence is the base of a subscript that is read"""
+    cache = prog.__dict__.setdefault('_h02_readonly', {})
+    if name not in cache:
+        ok = True
+        for f in prog.all_funcs():
+            for e in f.events():
+                if e['ev'] == 'store':
+                    r = lvalue_root(e['lhs'])
+                    if r is not None and r.get('name') == name and r.get('vk') in ('global', 'staticlocal'):
+                        ok = False
+                nvar = nidx = 0
+                for x in walk(e):
+                    if x.get('k') == 'var' and x.get('name') == name and x.get('vk') in ('global', 'staticlocal'):
+                        nvar += 1
+                    if x.get('k') in ('index', 'member') and not x.get('arrow'):
+                        b = x.get('base')
+                        while isinstance(b, dict) and b.get('k') in ('load', 'cast') and 'e' in b:
+                            b = b['e']
+                        if isinstance(b, dict) and b.get('k') == 'var' and b.get('name') == name and b.get('vk') in ('global', 'staticlocal'):
+                            nidx += 1
+                if nvar != nidx:
+                    ok = False
+        cache[name] = ok
+    return cache[name]
+
+
+def canon_init(n):
+    if isinstance(n, dict) and n.get('k') == 'init':
+        if isinstance(n.get('fields'), dict):
+            return '{%s}' % ','.join('.%s=%s' % (f, canon_init(x)) for f, x in sorted(n['fields'].items()))
+        return '{%s}' % ','.join(canon_init(x) for x in n.get('elems', []))
+    return canon(n)
+
+
+def const_tables(fn, prog):
+    """{(vk, name): initialiser} of the constant tables a function can read: static locals and globals that are
+    declared const (or are provably never written) and have an initialiser."""
+    out, clash = {}, set()
+    for e in fn.events():
+        if e['ev'] == 'decl' and e.get('static') and isinstance(e.get('init'), dict) and e['init'].get('k') == 'init':
+            base = e['name'].split('@')[0]          # the inliner renames the declaration, not the references
+            if _is_const_type(e.get('type')) or (prog is not None and _readonly_object(prog, base)):
+                for n in {e['name'], base}:
+                    key = ('staticlocal', n)
+                    if key in out and canon_init(out[key]) != canon_init(e['init']):
+                        clash.add(key)
+                    out[key] = e['init']
+    for key in clash:
+        del out[key]
+    if prog is not None:
+        cache = prog.__dict__.get('_h02_gconst')
+        if cache is None:
+            byname = {}
+            for key, g_ in prog.globals.items():
+                if g_.get('extern_decl') or not isinstance(g_.get('init'), dict) or g_['init'].get('k') != 'init':
+                    continue
+                byname.setdefault(g_['name'], []).append(g_)
+            cache = {}
+            for n, gs in byname.items():
+                if all(_is_const_type(g_.get('type')) or (g_.get('static') and _readonly_object(prog, n)) for g_ in gs):
+                    if len({canon_init(g_['init']) for g_ in gs}) == 1:
+                        cache[('global', n)] = gs[0]['init']
+                    else:
+                        # file-static tables of the same name in several units: told apart by the type of the reference
+                        for g_ in gs:
+                            tkey = ('global', n, g_.get('type'))
+                            cache[tkey] = None if tkey in cache else g_['init']
+            prog.__dict__['_h02_gconst'] = cache
+        out.update({k: v for k, v in cache.items() if v is not None})
+    return out
+
+
+_ZERO = {'k': 'int', 'v': 0}
+_CMPOPS = ('==', '!=', '<', '>', '<=', '>=')
+
+
+def bounded_counters(fn, const_value):
+    """locals that only ever hold small constants: every plain assignment stores a constant, every other store is
+    ++ / -- / op= constant, and every comparison they take part in is against a constant (at least one exists):
+    the counter of a loop over a constant table.  Their increments are computed exactly (the loop is unrolled by
+    the disjunctive state space); all other increments give an unknown value."""
+    cand, bad = set(), set()
+    for e in fn.events():
+        if e['ev'] != 'store':
+            continue
+        l = strip(e['lhs'])
+        if not (isinstance(l, dict) and l.get('k') == 'var' and l.get('vk') == 'local'):
+            continue
+        if e['op'] in ('++', '--'):
+            cand.add(l['name'])
+        elif not isinstance(const_value(e.get('rhs')), int):
+            bad.add(l['name'])
+    cand -= bad
+
+    def unwrap(x):
+        x = strip(x)
+        if isinstance(x, dict) and x.get('k') == 'incdec':
+            x = strip(x.get('e'))
+        return x
+    compared = set()
+    for b in fn.blocks.values():
+        c = b.term.get('cond') if b.term else None
+        if c is None:
+            continue
+        for x in walk(c):
+            if x.get('k') == 'bin' and x.get('op') in _CMPOPS:
+                for (a_, b_) in ((x['l'], x['r']), (x['r'], x['l'])):
+                    v = unwrap(a_)
+                    if isinstance(v, dict) and v.get('k') == 'var' and v['name'] in cand:
+                        if isinstance(const_value(b_), int):
+                            compared.add(v['name'])
+                        else:
+                            bad.add(v['name'])
+    return (cand & compared) - bad
 
 
 # --------------------------------------------------------------------------
@@ -134,6 +425,23 @@ def binop(op, a, b):
     return None
 
 
+def blocks_reaching(fn, events):
+    """ids of the blocks from which one of the events can still be reached (including their own blocks)"""
+    preds = {}
+    for b, blk in fn.blocks.items():
+        for s_ in blk.succ:
+            if s_ is not None:
+                preds.setdefault(s_, set()).add(b)
+    seen, work = set(), [e['_b'] for e in events]
+    while work:
+        b = work.pop()
+        if b in seen:
+            continue
+        seen.add(b)
+        work += list(preds.get(b, ()))
+    return seen
+
+
 class AbsInt:
     """keys: ('v', local) | ('l', local, ((rec, field), ...)) | whatever mem_key() returns for a member node
        (convention ('m', record, field)) | ('x', name) pseudo keys owned by the rule's hooks.
@@ -147,8 +455,9 @@ class AbsInt:
        quiet_calls          -> callees that do not write through their pointer arguments"""
 
     def __init__(self, fn, mem_key=None, fork=None, norm=None, pinned=(), on_event=None, on_edge=None,
-                 quiet_calls=(), prog=None, max_states=6000, on_nested_init=None):
+                 quiet_calls=(), prog=None, max_states=6000, on_nested_init=None, relevant=None):
         self.fn = fn
+        self.relevant = relevant        # block ids worth exploring (those from which a site of the rule is reachable), or None
         self.mem_key = mem_key
         self.fork = fork or (lambda k: None)
         self.norm = norm
@@ -173,17 +482,96 @@ class AbsInt:
                         names.add(r['name'])
         self.live = liveness(fn, names) if names else {}
         self.tracked_locals = names
+        self.consts = const_tables(fn, prog)
+        self._atoms = {}
+        self.counters = set()
+        self.counters = bounded_counters(fn, lambda x: self.ev(x, {}))
+
+    COUNTER_CAP = 64
+
+    def _const_read(self, e, s):
+        """value of a read `T[i][j].f` of a constant table under the state: the element the (decided) subscripts
+        select; with an undecided subscript the common value of all candidates, if there is one."""
+        steps, x = [], e
+        while True:
+            while isinstance(x, dict) and x.get('k') in ('cast', 'load', 'stmtexpr') and 'e' in x:
+                x = x['e']
+            if not isinstance(x, dict):
+                return None
+            k = x.get('k')
+            if k == 'member' and not x.get('arrow'):
+                steps.append(('f', x['field']))
+                x = x['base']
+            elif k == 'index':
+                steps.append(('i', x['idx']))
+                x = x['base']
+            elif k == 'var':
+                break
+            else:
+                return None
+        init = self.consts.get((x.get('vk'), x['name']))
+        if init is None:
+            init = self.consts.get((x.get('vk'), x['name'], x.get('type')))
+        if init is None or not steps:
+            return None
+        nodes = [init]
+        for kind, arg in reversed(steps):
+            nxt = []
+            iv = self.ev(arg, s) if kind == 'i' else None
+            for n in nodes:
+                if n is _ZERO:
+                    nxt.append(_ZERO)
+                elif not (isinstance(n, dict) and n.get('k') == 'init'):
+                    return None
+                elif kind == 'i':
+                    els = n.get('elems')
+                    if not isinstance(els, list):
+                        return None
+                    if iv == NZ or (isinstance(iv, int) and iv < 0):
+                        return None
+                    if isinstance(iv, int):
+                        nxt.append(els[iv] if iv < len(els) else _ZERO)
+                    else:
+                        nxt += els
+                else:
+                    flds = n.get('fields')
+                    if not isinstance(flds, dict):
+                        return None
+                    nxt.append(flds.get(arg, _ZERO))
+            nodes = nxt
+        vals = set()
+        for n in nodes:
+            if isinstance(n, dict) and n.get('k') == 'init':
+                return None
+            vals.add(self.ev(n, s))
+        return vals.pop() if len(vals) == 1 else None
 
     # -- expressions ---------------------------------------------------------
-    def key_of(self, e):
-        x = e
-        while isinstance(x, dict) and x.get('k') in ('load', 'cast', 'stmtexpr') and 'e' in x:
-            x = x['e']
+    def _local_array(self, x):
+        """the local array variable an `a[i]` node subscripts (a real array, not a pointer), or None"""
+        if isinstance(x, dict) and x.get('k') == 'index' and 'bound' in x:
+            b = strip_load(x.get('base'))
+            while isinstance(b, dict) and b.get('k') == 'cast':
+                b = strip_load(b.get('e'))
+            if isinstance(b, dict) and b.get('k') == 'var' and b.get('vk') == 'local':
+                return b['name']
+        return None
+
+    def key_of(self, e, s=None):
+        x = peel(e)
         if not isinstance(x, dict):
             return None
         k = x.get('k')
         if k == 'var' and x.get('vk') in ('local', 'param'):
             return ('v', x['name'])
+        if k == 'index' and s is not None:
+            # element of a local array under a decided subscript (a small table filled at run time and walked by a counter)
+            name = self._local_array(x)
+            if name is not None:
+                iv = self.ev(x.get('idx'), s)
+                if isinstance(iv, int) and 0 <= iv < 64:
+                    return ('l', name, (('#', iv),))
+            return None
         if k == 'member':
             if self.mem_key:
                 mk = self.mem_key(x)
@@ -215,9 +603,26 @@ class AbsInt:
             return None
         if k in ('str', 'addr'):
             return NZ
+        if k == 'deref':
+            x = peel(e)
+            return self.ev(x, s) if x is not e else None
         if k == 'member':
             key = self.key_of(e)
-            return s.get(key) if key is not None else None
+            if key is not None:
+                return s.get(key)
+            return self._const_read(e, s) if self.consts else None
+        if k == 'index':
+            key = self.key_of(e, s)
+            if key is not None:
+                return s.get(key)
+            return self._const_read(e, s) if self.consts else None
+        if k == 'incdec':
+            v = self.ev(e.get('e'), s)          # the side effect was emitted as an earlier store event
+            if e.get('prefix'):
+                return v
+            if isinstance(v, int):
+                return v - 1 if e['op'] == '++' else v + 1
+            return None
         if k == 'un':
             v = self.ev(e['e'], s)
             if e['op'] == '!':
@@ -299,8 +704,10 @@ class AbsInt:
         if nm in PRIMITIVES or nm in self.quiet:
             return False
         if self.prog is not None:
-            t = [f for f in self.prog.funcs.values() if f.name == nm and f.blocks]
-            return bool(t)
+            names = self.prog.__dict__.get('_h02_defined')
+            if names is None:
+                names = self.prog.__dict__['_h02_defined'] = {f.name for f in self.prog.funcs.values() if f.blocks}
+            return nm in names
         return False
 
     def step(self, e, s):
@@ -310,19 +717,34 @@ class AbsInt:
                 s = r
         ev = e['ev']
         if ev == 'store':
-            l = strip(e['lhs'])
-            key = self.key_of(e['lhs'])
+            l = peel(e['lhs'])
+            key = self.key_of(e['lhs'], s)
             op = e['op']
+            if key is None and self._local_array(l) is not None:
+                s = dict(s)
+                self._kill_local(s, self._local_array(l))       # element of a local array under an undecided subscript
+                return [s]
             if isinstance(l, dict) and l.get('k') == 'var' and op == '=':
                 s = dict(s)
                 for k2 in [k for k in s if k[0] == 'l' and k[1] == l['name'] and k not in self.pinned]:
                     del s[k2]
+                src = peel(e.get('rhs'))
+                if isinstance(src, dict) and src.get('k') == 'var' and src.get('vk') in ('local', 'param') and src['name'] != l['name']:
+                    # struct assignment between locals (a struct built by a helper and returned by value): the fields go along
+                    for k2 in [k for k in s if k[0] == 'l' and k[1] == src['name']]:
+                        if ('l', l['name'], k2[2]) not in self.pinned:
+                            s[('l', l['name'], k2[2])] = s[k2]
             if key is None:
                 return [s]
             if op == '=':
                 v = self.ev(e.get('rhs'), s)
             elif op in ('++', '--'):
+                cur = s.get(key)
                 v = None
+                if key[0] == 'v' and key[1] in self.counters and isinstance(cur, int):
+                    v = cur + (1 if op == '++' else -1)
+                    if abs(v) > self.COUNTER_CAP:
+                        v = None
             else:
                 v = binop(op[:-1], s.get(key), self.ev(e.get('rhs'), s))
             return self._set(dict(s), key, v, e)
@@ -332,6 +754,15 @@ class AbsInt:
             init = e.get('init')
             while isinstance(init, dict) and init.get('k') == 'compound':
                 init = init.get('e')
+            if isinstance(init, dict) and init.get('k') == 'init' and isinstance(init.get('elems'), list) and not e.get('static') \
+                    and 'bound' in e and len(init['elems']) <= 64:
+                # `T a[] = { x, y, z }`: the initialiser is the first store to every element
+                for i_, x in enumerate(init['elems']):
+                    if isinstance(x, dict) and x.get('k') == 'init':
+                        continue
+                    v = self.ev(x, s)
+                    if v is not None:
+                        s[('l', e['name'], (('#', i_),))] = v
             if isinstance(init, dict) and init.get('k') == 'init' and isinstance(init.get('fields'), dict):
                 # `struct T v = { .a = x, .u.p = y }`: the initialiser is the first store to every field
                 rec = init.get('record') or e.get('record')
@@ -393,7 +824,10 @@ class AbsInt:
             if t != (si == 0):
                 return None
         else:
-            for (op, lc, rc, l, r) in norm_cond(c, si == 0):
+            atoms = self._atoms.get((blk.id, si))
+            if atoms is None:
+                atoms = self._atoms[(blk.id, si)] = list(norm_cond(c, si == 0))
+            for (op, lc, rc, l, r) in atoms:
                 if op == 'const' or not isinstance(l, dict):
                     continue
                 key = self.key_of(l)
@@ -450,6 +884,8 @@ class AbsInt:
             return frozenset(out)
 
         def edge(blk, si, S):
+            if self.relevant is not None and blk.succ[si] not in self.relevant:
+                return None
             out = set()
             for fs in S:
                 s2 = self.edge_one(blk, si, dict(fs))
@@ -572,6 +1008,12 @@ class Sym:
     def read(self, a, M):
         if a in M:
             return M[a]
+        # a local struct that was filled in field by field, read as a whole (returned by value, assigned to an array entry)
+        if a[0] == 'var':
+            flds = [(k[3], M[k]) for k in M if k[0] == 'fld' and k[1] == a]
+            if flds:
+                recs = {k[2] for k in M if k[0] == 'fld' and k[1] == a}
+                return ('struct', sorted(recs, key=str)[0], tuple(sorted(flds)))
         # field of a struct that was copied as a whole
         if a[0] == 'fld' and a[1] in M:
             v = M[a[1]]
